@@ -26,6 +26,9 @@
 #include <algorithm>
 #include <functional>
 
+#ifndef VERIF_GEN_HASH
+#define VERIF_GEN_HASH "unknown"
+#endif
 namespace sim {
 
 // ---------------------------------------------------------------------------------------
@@ -533,6 +536,10 @@ static int replayMode(Check &c, const char *path)
 {
     std::string text; Plan plan;
     if(!readFile(path, text) || !planFromString(text, plan)) { fprintf(stderr, "cannot read plan %s\n", path); return 2; }
+    {
+        // plans of song-based checks carry seeds of generated songs/banks, not their bytes: say so when the generators have changed since
+        size_t g = text.find("# generators "); if(g != std::string::npos) { std::string h = text.substr(g + 13, text.find('\n', g) - g - 13); if(h != VERIF_GEN_HASH) printf("NOTE: this plan was recorded with generator version %s, the harness now has %s: content derived from seeds inside the plan may differ\n", h.c_str(), VERIF_GEN_HASH); }
+    }
     EvalResult r = evalInChild(c, plan, c.cpuBudgetSec(), g_sanitized);
     if(r.harnessError) return 2;
     if(r.v.set)
@@ -753,6 +760,8 @@ static int driverMain(Check &c, int argc, char **argv)
                    (unsigned long long)ci.count, (unsigned long long)ci.firstIdx);
             continue;
         }
+        // VERIF_ONLY_CLASS=<substring>: shrink only matching classes (used to re-record a replay on an old tree full of other defects)
+        if(getenv("VERIF_ONLY_CLASS") && it->first.find(getenv("VERIF_ONLY_CLASS")) == std::string::npos) { printf("NOTE: violation class %s (%llu runs) skipped (VERIF_ONLY_CLASS)\n", it->first.c_str(), (unsigned long long)ci.count); exitCode = 1; continue; }
         // at most 2 minimised classes per oracle tag and 10 overall: the remaining ones are reported, not shrunk
         if(++perTag[ci.v.tag] > 2 || processed >= 10) { printf("NOTE: further violation class %s (%llu runs, first index %llu) not minimised\n", it->first.c_str(), (unsigned long long)ci.count, (unsigned long long)ci.firstIdx); exitCode = 1; continue; }
         ++processed;
@@ -773,7 +782,7 @@ static int driverMain(Check &c, int argc, char **argv)
         std::string text = planToString(plan, NULL);
         {
             // annotate with op names for the reader
-            std::ostringstream os; os << "verif-plan 1\n# class " << it->first << "\n# detail " << ci.v.detail << "\n";
+            std::ostringstream os; os << "verif-plan 1\n# class " << it->first << "\n# detail " << ci.v.detail << "\n# generators " << VERIF_GEN_HASH << "\n";
             std::string body = text.substr(text.find('\n') + 1);
             std::istringstream is(body); std::string ln; size_t oi = 0;
             while(std::getline(is, ln))
